@@ -276,4 +276,12 @@ def main_wrapper(fn):
     except ToolError as e:
         print("TOOL-ERROR: %s" % e, file=sys.stderr)
         sys.exit(2)
+    except (KeyboardInterrupt, SystemExit):
+        raise
+    except BaseException:
+        # a bug in the checking machinery is a tool error, never a verdict about the code under test
+        import traceback
+        traceback.print_exc()
+        print("TOOL-ERROR: internal error in the check", file=sys.stderr)
+        sys.exit(2)
     sys.exit(rc)
